@@ -473,8 +473,8 @@ func offer(w *tj.Writer, r *rand.Rand, idx int) {
 	var perr error
 	select {
 	case perr = <-done:
-	case <-time.After(25 * time.Second):
-		viol("hang:sync:"+behaviour, fmt.Sprintf("process() of a block offered by a %s peer did not return within 25 s (sync never terminates)", behaviour), scenario)
+	case <-time.After(60 * time.Second):
+		viol("hang:sync:"+behaviour, fmt.Sprintf("process() of a block offered by a %s peer did not return within 60 s (sync never terminates)", behaviour), scenario)
 		mu.Lock()
 		out.Offers++
 		out.Outcomes["hang"]++
@@ -575,7 +575,7 @@ func offerFrom(a *node.Node, fp *fakePeer) (error, bool) {
 	select {
 	case e := <-done:
 		return e, true
-	case <-time.After(25 * time.Second):
+	case <-time.After(60 * time.Second):
 		return fmt.Errorf("hang"), true
 	}
 }
@@ -693,7 +693,7 @@ func doubleOffer(w *tj.Writer, r *rand.Rand, idx int) {
 		return
 	}
 	if perr != nil && perr.Error() == "hang" {
-		viol("hang:sync:double", "process() of a block offered after an earlier failed sync did not return within 25 s", scenario)
+		viol("hang:sync:double", "process() of a block offered after an earlier failed sync did not return within 60 s", scenario)
 		return
 	}
 	if perr != nil && strings.HasPrefix(perr.Error(), "panic:") {
@@ -745,8 +745,14 @@ func main() {
 	nh, _ := strconv.Atoi(os.Args[4])
 	no, _ := strconv.Atoi(os.Args[5])
 	peersTable(os.Args[1])
-	if nh > 0 {
-		handlers(w, r, nh)
+	// the serving node rate-limits every procedure (100 messages per 10 s and peer, 10 penalty points above that, ban at
+	// 100 points): a fresh server and client for every 90 calls keeps the client an ordinary, well-behaved peer
+	for done := 0; done < nh; done += 90 {
+		k := nh - done
+		if k > 90 {
+			k = 90
+		}
+		handlers(w, r, k)
 	}
 	var wg sync.WaitGroup
 	sem := make(chan struct{}, 6)
